@@ -4,7 +4,7 @@
    predicate `e`; `pred e p` is predicate_t applied to one posting (Err = the C++ throws, which
    aborts the report); `total_on e l` says that `e` evaluates without error on every posting of
    `l`.  `subseq`/`merge` are order-preserving sub-sequence and interleaving. *)
-From LedgerV Require Import Base.Prelude Model.Filter Proofs.FilterProofs.
+From LedgerV Require Import Base.Prelude Model.Filter Model.Query Proofs.FilterProofs Proofs.QueryProofs.
 From Coq Require Import Permutation.
 Local Open Scope Z_scope.
 
@@ -104,6 +104,52 @@ Theorem begin_end_range : forall tb te b e l,
             r = filter (fun p => (b <=? post_date p) && (post_date p <? e)) l.
 Proof. exact begin_end_range_lemma. Qed.
 Print Assumptions begin_end_range.
+
+(* ---- the command-line query parser (query.cc lexer + precedence ladder, transcribed in
+   Model/Query.v) maps a written query tree to the intended expression.
+   `render q` writes the tree one token per argument, operators and field selectors in either
+   spelling (and/&, or/|, not/!, payee/@, code/#, note/=), juxtaposition for QJux, with exactly
+   the parentheses that not > and > or > juxtaposition (left-associative) requires;
+   `query_ok q`: every pattern is a bare word (no white space, quote, operator or escape byte,
+   not a reserved word).  It holds for every `ext` (the expression parser behind `expr ARG`) and
+   in both lexing modes.
+   _partial: tag selectors (%), `expr`, quoted patterns and several tokens inside one argument
+   are not covered by this theorem (they are covered by the correspondence check only). ---- *)
+Theorem query_parse_spec_partial : forall ext multi q,
+  query_ok q = true -> parse ext multi (render q) = Ok (Some (to_expr q)).
+Proof. exact query_parse_lemma. Qed.
+Print Assumptions query_parse_spec_partial.
+
+(* corollary: the query selects what the equivalent value expression selects *)
+Theorem query_equiv_expr : forall ext multi q l,
+  query_ok q = true ->
+  exists e, parse ext multi (render q) = Ok (Some e) /\
+            report_posts [e] l = filter_posts (to_expr q) l.
+Proof.
+  intros ext multi q l H. exists (to_expr q). split; [apply query_parse_lemma; exact H | reflexivity].
+Qed.
+Print Assumptions query_equiv_expr.
+
+(* `a b or c and d` is a | (b | (c & d)); `not a @x` is (!a) | payee x: computed by the model *)
+Example query_precedence_example :
+  let w c := [c] in
+  let m c := EMatch (EIdent IAccount) [c] in
+  parse (fun _ => Err EOther) true [w 97; w 98; kw_or; w 99; kw_and; w 100]
+    = Ok (Some (EOr (m 97) (EOr (m 98) (EAnd (m 99) (m 100))))) /\
+  parse (fun _ => Err EOther) true [kw_not; w 97; [64; 120]]
+    = Ok (Some (EOr (ENot (m 97)) (EMatch (EIdent IPayee) [120]))).
+Proof. vm_compute. split; reflexivity. Qed.
+
+(* non-vacuity of query_parse_spec_partial: a tree with every construct is query_ok and renders
+   to the expected argument vector *)
+Example query_render_example :
+  let q := QJux (QTerm QAccount false [97])
+                (QOr false (QTerm QPayee true [98])
+                     (QAnd true (QNot false (QJux (QTerm QCode false [99]) (QTerm QNote true [100])))
+                           (QTerm QAccount false [101]))) in
+  query_ok q = true /\
+  render q = [[97]; [64]; [98]; kw_or; kw_not; [40]; kw_code; [99]; [61]; [100]; [41]; [38]; [101]].
+Proof. vm_compute. split; reflexivity. Qed.
 
 (* non-vacuity: a predicate with a non-boolean operand is total on a concrete posting *)
 Example total_example :
